@@ -192,7 +192,7 @@ Section VM.
             | Some (OList vs k) => gow st (put_obj w a (OList (vs ++ [v]) k))
             | _ => Stop (VUnsup "internal:accumulator")
             end
-        | SLICE _, _ => Stop (VUnsup "slice")
+        | SLICE p, st_ :: hi :: lo :: x :: st => of_pres (slice_op x lo hi st_ w) p w (fun r => gow (fst r :: st) (snd r))
         | CONSTANT v, st => go (v :: st)
         | MAKETUPLE n, st => match popn n st [] with Some (vs, st') => go (VTuple vs :: st') | None => stuck end
         | MAKELIST n, st => match popn n st [] with
